@@ -48,9 +48,9 @@ def minimize_exact_root(fun, x0, bounds=None, tol=None, **kw):
     """ClampBase.get_params: the minimiser of a distance whose minimum 0 is attainable returns parameters x with
     fun(x) == 0 (contract of an exact minimiser for a position on the manifold); x is otherwise arbitrary in bounds."""
     sx = api.CUR
-    x0 = np.atleast_1d(np.asarray(x0, dtype=object))
     if sx is None or not sx.sym:
         return scipy.optimize.minimize(fun, x0, bounds=bounds, tol=tol, **kw)
+    x0 = np.atleast_1d(np.asarray(x0, dtype=object))
     x = fresh_vector(len(x0), bounds, "clampinit")
     val = R.lift(fun(x))
     if CLAMP_INIT_MODE["mode"] == "any":
